@@ -18,6 +18,7 @@ import (
 	"amverif/hist"
 	"amverif/pipes"
 	"amverif/race"
+	"amverif/rpcconv"
 	"amverif/super"
 	"amverif/core"
 	"amverif/helpers"
@@ -47,6 +48,11 @@ func main() {
 		os.Exit(cmdDbg(os.Args[2:]))
 	case "super":
 		os.Exit(cmdSuper(os.Args[2:]))
+	case "conv":
+		os.Exit(cmdConv(os.Args[2:]))
+	case "convchild":
+		rpcconv.Child(os.Args[2])
+		os.Exit(0)
 	case "superchild":
 		super.Child(os.Args[2])
 		os.Exit(0)
@@ -264,6 +270,65 @@ func cmdConc(args []string) int {
 	}
 	fmt.Printf("cases=%d evaluations=%d transitions=%d disagreements=%d failures=%d wall=%.1fs extra=%v\n",
 		res.Cases, res.Evaluations, res.Transitions, len(res.Disagreements), len(res.Failures), res.WallS, res.Extra)
+	for _, d := range res.Disagreements {
+		if d.File != "" {
+			fmt.Printf("DISAGREE %s line %d: %s\n  impl : %s\n  model: %s\n", d.File, d.Line, d.Op, d.Impl, d.Model)
+		}
+	}
+	for _, f := range res.Failures {
+		fmt.Printf("MONITOR-FAIL finding=%q %s (%s)\n", f.Finding, f.Msg, f.File)
+	}
+	if len(res.Disagreements) > 0 || len(res.Failures) > 0 {
+		return 1
+	}
+	return 0
+}
+
+func cmdConv(args []string) int {
+	fs := flag.NewFlagSet("conv", flag.ExitOnError)
+	fs.String("prop", "C09", "")
+	tier := fs.String("tier", "quick", "quick|thorough")
+	seed := fs.Int64("seed", 1, "PRNG seed")
+	n := fs.Int("cases", 0, "generated cases")
+	driver := fs.String("driver", "/verif/lean/.lake/build/bin/amdriver", "model driver")
+	out := fs.String("out", "/verif/out", "")
+	result := fs.String("result", "", "")
+	corpus := fs.String("corpus", "", "")
+	replay := fs.String("replay", "", "")
+	search := fs.Bool("search", false, "")
+	fs.Parse(args)
+	var fixed []rpcconv.Case
+	if *replay != "" {
+		c, err := rpcconv.LoadCase(*replay)
+		if err != nil {
+			fmt.Println(err)
+			return 2
+		}
+		fixed = append(fixed, c)
+		*n = -1
+	}
+	if *n == 0 {
+		*n = 40
+		if *tier == "thorough" {
+			*n = 600
+		}
+	}
+	if *n < 0 {
+		*n = 0
+	}
+	if *search {
+		*n *= 3
+	}
+	var dirs []string
+	if *corpus != "" && *replay == "" {
+		dirs = strings.Split(*corpus, ",")
+	}
+	res := rpcconv.RunPipeline(*seed, *tier, *driver, *out, *n, *search, dirs, fixed)
+	b, _ := json.MarshalIndent(res, "", " ")
+	if *result != "" {
+		os.WriteFile(*result, b, 0o644)
+	}
+	fmt.Printf("cases=%d evaluations=%d disagreements=%d failures=%d wall=%.1fs extra=%v note=%s\n", res.Cases, res.Evaluations, len(res.Disagreements), len(res.Failures), res.WallS, res.Extra, res.Note)
 	for _, d := range res.Disagreements {
 		if d.File != "" {
 			fmt.Printf("DISAGREE %s line %d: %s\n  impl : %s\n  model: %s\n", d.File, d.Line, d.Op, d.Impl, d.Model)
